@@ -532,9 +532,28 @@ def run(tier, seed):
     resR = corr.run('c20r', rcases, rfc_line, rfc_py, None, chunk=400)
     ocases = [('out', k) for k in BEHAVIOURS]
     resO = corr.run('c20f', ocases, out_line, out_py, None, chunk=20, procs=1)
+    # resolveImports: random import trees against the model `Model/Resolve.lean` (harness/props/c20r.py)
+    from . import c20r
+    c20r._cp()
+    vcases = c20r.gen_cases(tier)
+    if tier == 'quick':
+        vcases = vcases[::3]
+    if seed:
+        vcases = [(k, i + 1000003 * seed) if k != 'fix' else (k, i) for (k, i) in vcases]
+    resV = corr.run('c20res', vcases, c20r.line_of, c20r.py_of, c20r.oracle, chunk=120)
+    if resV['n_mismatch']:
+        c, line, e, g = resV['mismatches'][0]
+        broken.append('correspondence op `resolve` diverges on %d import trees; first %r: line=%s impl=%s model=%s' % (
+            resV['n_mismatch'], c, line[:200], e[:200], g[:200]))
+    for case, why in resV['oracle_fail'][:6]:
+        findings.add('resolve', repr(case), why)
+    asked = c20r.default_fetcher_probe()
+    if asked:
+        findings.add('resolve-fetcher', 'top \'@import "sub/a.css"; x{left:0}\', sub/a.css \'@import "n.css"; a{top:0}\', sub/n.css not loadable',
+                     'resolveImports asked the default fetcher for %r' % asked)
     cyc = out_cyclic()
     cyc_model = lib.run_driver(['fetchout %s cyclic' % MODEL_FIXED])[0]
-    n_mis = resE['n_mismatch'] + resU['n_mismatch'] + resO['n_mismatch'] + resR['n_mismatch'] + (1 if cyc != cyc_model else 0)
+    n_mis = resE['n_mismatch'] + resU['n_mismatch'] + resO['n_mismatch'] + resR['n_mismatch'] + resV['n_mismatch'] + (1 if cyc != cyc_model else 0)
     for name, r in (('encsel', resE), ('urlpath', resU), ('fetchout', resO), ('rfcpath', resR)):
         if r['n_mismatch']:
             c, line, e, g = r['mismatches'][0]
@@ -548,8 +567,8 @@ def run(tier, seed):
         for case, why in r['oracle_fail'][:8]:
             findings.add(case[0], repr(case[1:]), why)
     coverage = {
-        'evaluations': res['n'] + resE['n'] + resU['n'] + resO['n'] + 1,
-        'distinct_nontrivial': len(set(lcases)) + len(ecases) + len(set(ucases)) + len(fcases),
+        'evaluations': res['n'] + resE['n'] + resU['n'] + resO['n'] + resV['n'] + 1,
+        'distinct_nontrivial': len(set(lcases)) + len(ecases) + len(set(ucases)) + len(fcases) + len(set(vcases)),
         'rule': 'load: sheets with 1-3 imports over 6 href forms (relative, dot segments, absolute path, absolute URL) x '
                 'every one of 10 fetcher behaviours alone, every pair, sampled triples, and nested imports (4 nested href '
                 'forms x 10 behaviours) under both loading behaviours; checked: parse completes, every @import kept with its '
@@ -558,8 +577,11 @@ def run(tier, seed):
                 'enc: the full table override(3) x HTTP(4) x BOM/@charset/none(3) x parent @charset(4), and for a sheet imported by an '
                 'imported sheet override(2) x HTTP1(3) x content1(2) x parent(2) x HTTP2(3) x content2(3); url: 7 bases x 21 '
                 'references + random segment lists against the model and against RFC 3986; flat: resolveImports over all '
-                'sequences of <= 3 imports from {all,print,list} x {loaded, not}; a two-sheet import cycle',
-        'traces_validated_against_impl': resE['n'] + resU['n'] + resO['n'] + resR['n'] + 1,
+                'sequences of <= 3 imports from {all,print,list} x {loaded, not}; a two-sheet import cycle; resolve: random import trees '
+                '(nesting <= 3, width 0-3; loaded / None / raising fetcher; media all / restricted / odd; sheets with @charset, @namespace, '
+                'namespaced selectors, @media, @page, @font-face, comments, unknown rules), a mutated stream, 19 fixed sheets and a '
+                'second run on the flat result, flattened rule sequence compared with the model and with the theorem statements',
+        'traces_validated_against_impl': resE['n'] + resU['n'] + resO['n'] + resR['n'] + resV['n'] + 1,
         'exhaustive': True,
         'distribution': dist,
         'samples': [repr(lcases[i]) for i in (3, len(lcases) // 2, len(lcases) - 1)],
